@@ -3,6 +3,10 @@ import PetgraphModel.GraphProto
 import PetgraphModel.Oracle.Reach
 import PetgraphModel.Oracle.C20Judge
 import PetgraphModel.Model.C20
+import PetgraphModel.Model.C20Steiner
+import PetgraphModel.Model.C20W4Scope
+import PetgraphModel.Model.C20W4DsaturBin
+import PetgraphModel.Model.C20W4CliquesRun
 /-
 C20 driver.  Requests (after a `graph …` line; all ids abstract):
 
@@ -14,9 +18,16 @@ C20 driver.  Requests (after a `graph …` line; all ids abstract):
   steiner terms=<..>                                   => nodes=<..> edges=<edge ids>
   pagerank d=<num>/<den> it=<k> perm=<p>               => <ranks·1e12>|<ranks·1e12 of the relabelled copy>
 
-Verdict = spec-level judge (Oracle/C20Judge.lean) on the implementation's answer against the abstract
-graph, then exact comparison with the mirror model (Model/C20.lean) where the answer is determined
-by the view's iteration orders (fas, tred, paths) or unique (cliques; page_rank numerically).
+Verdict = (0) run-time checks of the hypotheses of the property theorems (`Model/C20W4Scope.lean`,
+`Steiner.scopeB`, `DsaturBin.hypsB`, …; a failing check of something the graph type / encoding must
+guarantee is `SPECFAIL side condition …`, one that only concerns the generated input is
+`SPECFAIL generator left the proved range …`), (1) spec-level judge (Oracle/C20Judge.lean) on the
+implementation's answer against the abstract graph, then (2) exact comparison with the mirror model:
+fas, tred, paths (`from = to` too), dsatur (the exact `BinaryHeap` mirror `DsaturBin.run`) — determined
+by the view's iteration orders; cliques and steiner — existential over what the hash order decides
+(`CliquesRun.check`: some run of Bron–Kerbosch with the code's pivot rule reports the cliques in this
+order; `Steiner.mstCandidates`: some tie order of Kruskal's heap yields this subgraph); page_rank
+numerically.
 -/
 namespace PetgraphModel.C20
 open PetgraphModel PetgraphModel.Oracle
@@ -24,10 +35,6 @@ open PetgraphModel PetgraphModel.Oracle
 structure DState where
   v : View := default
   ok : Bool := false
-
-/-- the view's neighbour lists describe the abstract graph (as multisets) -/
-def viewOkB (v : View) : Bool :=
-  v.g.nodes.all fun a => sameSet (v.succ a) (v.g.succ a) && sameSet (v.pred a) (v.g.pred a)
 
 def verdict (spec : Option String) (model impl : String) : String :=
   match spec with
@@ -65,8 +72,6 @@ def parseRat (s : String) : Option Rat :=
 
 def hasNaN (s : String) : Bool := (s.splitOn ",").any fun t => t == "nan"
 
-def applyPerm (p : List Nat) (a : Nat) : Nat := p.getD a a
-
 /-- spec-level clauses of page_rank on the printed integers (rank·1e12, tolerance 1e-9 = 1000 units) -/
 def judgeRanks (n : Nat) (perm : List Nat) (r1 r2 : List Int) : Option String :=
   if r1.length != n || r2.length != n then some s!"{r1.length} / {r2.length} ranks for {n} node indices"
@@ -85,6 +90,10 @@ def lexLe : List Nat → List Nat → Bool
   | _ :: _, [] => false
   | a :: as, b :: bs => a < b || (a == b && lexLe as bs)
 
+/-- answer to any request of a case whose `graph` line failed `viewOkB` -/
+def sideViewMsg : String :=
+  "SPECFAIL side condition viewOk does not hold: neighbour iteration of this encoding does not describe the abstract graph"
+
 def step (d : DState) (req : List String) (impl : String) : DState × String :=
   let g := d.v.g
   match req with
@@ -96,27 +105,38 @@ def step (d : DState) (req : List String) (impl : String) : DState × String :=
       if viewOkB v then ({ v := v, ok := true }, "ok")
       else ({ v := v, ok := false }, "SPECFAIL neighbour iteration of this encoding does not describe the abstract graph")
   | ["fas", eo] =>
+    if !d.ok then (d, sideViewMsg) else
     if impl == "panic" then (d, "SPECFAIL greedy_feedback_arc_set panicked") else
     let eorder := parseNats ((eo.drop 7).toString)
     let removed := parseNats impl
-    let es := eorder.filterMap fun i => (g.edges.find? (·.id == i)).map fun e => (e.id, e.src, e.tgt)
-    let spec := if sameSet eorder (g.edges.map (·.id)) then judgeFas g removed else some "edge_references does not list the graph's edges"
+    if !g.directed then (d, "SPECFAIL generator left the proved range: feedback arc set of an undirected graph") else
+    if !fasScopeB g eorder then (d, "SPECFAIL side condition fasScope does not hold: edge_references does not list the graph's edges") else
+    let es := (fasOrder g eorder).map fun e => (e.id, e.src, e.tgt)
+    let spec := if sameSet eorder (g.edges.map (·.id)) then judgeFas g removed else some "edge_references does not list the graph's edges once each"
     (d, verdict spec (showNats (Fas.feedbackArcSet es)) impl)
   | ["dsatur"] =>
+    if !d.ok then (d, sideViewMsg) else
     if impl == "panic" then (d, "SPECFAIL dsatur_coloring panicked") else
+    if !DsaturBin.undirectedB g then (d, "SPECFAIL generator left the proved range: dsatur_coloring of a directed graph") else
+    if !DsaturBin.hypsB g then (d, "SPECFAIL side condition dsaturHyps does not hold: a node is listed twice or an edge ends outside the nodes") else
+    if !DsaturBin.viewPermB d.v then (d, "SPECFAIL side condition viewPerm does not hold: neighbors() is not a rearrangement of the abstract neighbours") else
     let ws := splitWords impl
     match field? ws "colors", (field? ws "k").bind (·.toNat?) with
     | some cs, some k =>
-      -- determined part: the colouring is a greedy one (every node sees all smaller colours among its
-      -- neighbours), as it is for any pop order of the heap (`C20_dsatur_any_order`)
-      let col := parsePairs cs
-      let greedyOk := col.all fun p => (List.range p.2).all fun c =>
-        (g.succ p.1).any fun u => col.lookup u == some c
-      (d, verdict (judgeDsatur g col k) "greedy" (if greedyOk then "greedy" else s!"not-greedy {cs}"))
+      -- exact part: the mirror of the code with std's `BinaryHeap` (every tie of the heap is decided
+      -- as the real sift-up / sift-down-to-bottom decide it); by `C20_dsatur_run_check` this run is an
+      -- instance of the oracle model of `C20_dsatur_heap_model`
+      let model := (DsaturBin.answer d.v).getD "model-out-of-fuel"
+      (d, verdict (judgeDsatur g (parsePairs cs) k) model impl)
     | _, _ => (d, s!"SPECFAIL malformed answer {impl}")
   | ["tred", tp] =>
+    if !d.ok then (d, sideViewMsg) else
     if impl == "panic" then (d, "SPECFAIL tred panicked") else
     let topo := parseNats ((tp.drop 5).toString)
+    if !dagInputB d.v topo then
+      (if g.directed && decide (∀ e ∈ g.edges, topo.idxOf e.src < topo.idxOf e.tgt) && decide topo.Nodup && sameSet topo g.nodes
+        then (d, "SPECFAIL side condition dagInput does not hold: Incoming iteration, node ids or edge endpoints of this encoding are inconsistent")
+        else (d, "SPECFAIL generator left the proved range: not a DAG with a toposort of its nodes")) else
     let ws := splitWords impl
     match field? ws "revmap", field? ws "len", field? ws "res", field? ws "red", field? ws "clo" with
     | some rm, some len, some res, some red, some clo =>
@@ -129,45 +149,95 @@ def step (d : DState) (req : List String) (impl : String) : DState × String :=
       (d, verdict (judgeTred g topo ans) model impl)
     | _, _, _, _, _ => (d, s!"SPECFAIL malformed answer {impl}")
   | ["cliques"] =>
+    if !d.ok then (d, sideViewMsg) else
     if impl == "panic" then (d, "SPECFAIL maximal_cliques panicked") else
+    if g.directed then (d, "SPECFAIL generator left the proved range: maximal_cliques of a directed graph") else
+    if !CliquesRun.nodupB g.nodes then (d, "SPECFAIL side condition nodesNodup does not hold: a node is listed twice") else
     let out := parseNatLists impl
-    -- unique answer: also compared exactly (each clique ascending, list sorted lexicographically by the harness)
-    let want := ((maxCliques g).map sortNats).mergeSort lexLe
-    let model := if want.isEmpty then "-" else String.intercalate ";" (want.map fun c => if c.isEmpty then "e" else showNats c)
-    (d, verdict (judgeCliques g out) model impl)
+    -- exact part: SOME run of the Bron–Kerbosch mirror with the code's pivot rule (a vertex of P of
+    -- maximal degree; the tie and the exploration order are the hash order) reports exactly these
+    -- cliques in exactly this order (`CliquesRun.check`, sound by `C20_cliques_run_check`)
+    match judgeCliques g out with
+    | some why => (d, s!"SPECFAIL {why}")
+    | none =>
+      match CliquesRun.check g out with
+      | none => (d, "ok")
+      | some why => (d, s!"MODELDIFF model=[{why}] impl=[{impl}]")
   | ["paths", a, b, lo, hi] =>
+    if !d.ok then (d, sideViewMsg) else
     if impl == "panic" then (d, "SPECFAIL all_simple_paths panicked") else
     match a.toNat?, b.toNat?, lo.toNat? with
     | some a, some b, some lo =>
+      if !g.directed then (d, "SPECFAIL generator left the proved range: all_simple_paths judged on directed graphs only") else
+      if !pathsScopeB g a then (d, "SPECFAIL side condition pathsScope does not hold: an edge ends outside the nodes or `from` is not a node") else
       let hi := hi.toNat?
       let out := parseNatLists impl
       let fuel := 64 * (g.nodes.length + 2) * (g.edges.length + 2) * (out.length + 2)
       let model := match Paths.allSimplePaths d.v.succ g.nodes.length a b lo hi fuel with
         | some ps => showNatLists ps
         | none => "FUEL"
-      (d, verdict (judgePaths g a b lo hi out) model impl)
+      -- `from = to`: the statement of `C20_paths_from_eq_to` (simple cycles through `a`)
+      let spec := if a == b then judgeCycles g a lo hi out else judgePaths g a b lo hi out
+      (d, verdict spec model impl)
     | _, _, _ => (d, "SPECFAIL bad request")
   | ["steiner", ts] =>
+    if !d.ok then (d, sideViewMsg) else
     if impl == "panic" then (d, "SPECFAIL steiner_tree panicked") else
     let terms := parseNats ((ts.drop 6).toString)
+    if g.directed then (d, "SPECFAIL generator left the proved range: steiner_tree of a directed graph") else
+    if !C11M.wfB g then (d, "SPECFAIL side condition wellFormed does not hold: a node is listed twice or an edge ends outside the nodes") else
+    if !C11M.viewArcsB d.v then (d, "SPECFAIL side condition viewArcs does not hold: edges() does not describe the abstract graph's arcs") else
+    if !Steiner.scopeB d.v terms then (d, "SPECFAIL generator left the proved range: a cost beyond 2^32 or a terminal that is not a node") else
+    if !C10.viewOkB d.v && g.edges.all (fun e => decide (0 ≤ e.w)) then (d, "SPECFAIL side condition viewArcs does not hold: edges() does not describe the abstract graph's arcs") else
+    if !Steiner.domainB d.v terms then (d, "SPECFAIL generator left the proved range: a cost that is not positive or terminals that are not connected") else
     let ws := splitWords impl
     if ws.contains "INCONSISTENT" then (d, "SPECFAIL a retained edge changed its endpoints or weight") else
     match field? ws "nodes", field? ws "edges" with
     | some ns, some es =>
-      match judgeSteiner g terms (parseNats ns) (parseNats es) with
-      | .ok => (d, "ok")
-      | .fail why =>
-        -- new finding: a single terminal yields the empty graph (the tree should be that node alone)
-        if terms.length == 1 && ns == "-" && es == "-" then
-          (d, s!"KNOWN NEW-steiner-single-terminal steiner_tree with the single terminal {showNats terms} returns the empty graph, which does not contain the terminal")
-        else (d, s!"SPECFAIL {why}")
-      | .cycleOnly why => (d, s!"KNOWN D21 {why}; every other clause (inside the graph, terminals, leaves, connected, weight <= 2*optimum) holds")
+      let N := parseNats ns
+      let E := parseNats es
+      -- exact part: is there a run of the mirror model (some tie order of Kruskal's heap, i.e. some
+      -- hash order of the metric closure) that returns exactly this subgraph?
+      let exact : String :=
+        match C11M.floydWarshall C11M.Meas.i64 d.v, Steiner.closure d.v terms with
+        | some fw, some c =>
+          let hit (pops : List Steiner.Item) : Bool := Steiner.popsOkB terms pops &&
+            match Steiner.steinerWith (Steiner.prevOf fw) g terms pops with
+            | .ok mn me => sortNats mn == N && sortNats me == E
+            | _ => false
+          -- guided search: only closure edges whose expanded path lies inside the answer can have been
+          -- accepted by Kruskal's loop; then (small closures only) the full enumeration
+          let implPairs := (resultEdges g E).map fun e => (e.src, e.tgt)
+          let allowed := Steiner.compatible (Steiner.prevOf fw) g.nodes.length implPairs c
+          if (Steiner.mstCandidatesIn c allowed).any hit then "ok"
+          else if c.length ≤ 15 && (Steiner.mstCandidates c).any hit then "ok"
+          else
+            let first := match (Steiner.mstCandidatesIn c c.reverse).head? with
+              | some pops => match Steiner.steinerWith (Steiner.prevOf fw) g terms pops with
+                | .ok mn me => s!"nodes={showNats (sortNats mn)} edges={showNats (sortNats me)}"
+                | .panic => "panic"
+                | .diverge => "does not return"
+              | none => "no spanning tree of the closure"
+            s!"MODELDIFF model=[no minimum spanning tree of the metric closure ({c.length} entries, {allowed.length} of them expand inside this answer) yields this subgraph; e.g. {first}] impl=[{impl}]"
+        | _, _ => s!"MODELDIFF model=[panic] impl=[{impl}]"
+      match judgeSteiner g terms N E with
+      | .ok => (d, exact)
+      | .fail why => (d, s!"SPECFAIL {why}")
+      | .cycleOnly why =>
+        -- D21 is classified narrowly: the answer must be one the mirror model OF THE UNCHANGED CODE
+        -- produces (a cyclic union of expanded shortest paths); any other subgraph with a cycle is a failure
+        if exact == "ok" then
+          (d, s!"KNOWN D21 {why}; every other clause (inside the graph, terminals, leaves, connected, weight <= 2*optimum) holds, and the mirror model of the unchanged code returns exactly this subgraph")
+        else (d, s!"SPECFAIL {why} (not finding D21: no run of the mirror model of the unchanged code returns this subgraph)")
     | _, _ => (d, s!"SPECFAIL malformed answer {impl}")
   | ["pagerank", ds, its, ps] =>
+    if !d.ok then (d, sideViewMsg) else
     match parseRat ((ds.drop 2).toString), ((its.drop 3).toString).toNat?, impl.splitOn "|" with
     | some dq, some it, [s1, s2] =>
       let perm := parseNats ((ps.drop 5).toString)
       let n := g.nodes.length
+      if !nodesNodupB g || !endpointsB g then (d, "SPECFAIL side condition pagerankGraph does not hold: a node is listed twice or an edge ends outside the nodes") else
+      if !pagerankScopeB g dq perm then (d, "SPECFAIL generator left the proved range: damping factor outside [0,1] or perm is not a permutation") else
       if s1 == "panic" || s2 == "panic" then (d, "SPECFAIL page_rank panicked for a damping factor in [0,1]") else
       let model := PR.pageRank g dq it
       if hasNaN s1 || hasNaN s2 then
